@@ -280,6 +280,11 @@ def c14(chk):
              simulate=60 if quick else 1500, depth=60, keep=quiet)
     for nsteps in ((200, 600) if quick else (200, 600, 2000)):
         l0_traces(chk, "disk_traces_%d" % nsteps, 8 if quick else 60, nsteps, 6, 2, "set,del,begin,commit,rollback,gc,reopen")
+    # at scale: transactions that leave more files behind than one cleaner job takes (Bulk.tla)
+    spec_stage(chk, "bulk_leftovers", "Bulk.tla",
+               dict(Ns={1, 999, 1000, 1001, 2500} if quick else {0, 1, 999, 1000, 1001, 1999, 2000, 2001, 2500, 5000}, Modes={"rollback", "supersede", "conflict"},
+                    ChunkSize=1000, Variant="ascoded"),
+               view=None, emit="Emit", invariants=("XReclaimed",), properties=(), exe="fixture", fs=False, chunk=2)
 
 
 def set_rule():
